@@ -7,7 +7,7 @@ PROPS = {
     'C01': ['DISPATCH', 'ACDUAL', 'FINCHK', 'SYMIDX', 'ORDTOTAL', 'FRAMERESET', 'MERGE', 'CACHELIFE', 'SIBLING', 'ERASER', 'FORWARD', 'KEYFIELDS', 'QUEUEENDS', 'CLIOPT', 'FLAGRESET', 'DRAIN', 'INSETLABEL', 'TUPLEPOS', 'CHECKEDRET', 'STATICSTATE'],
     'C02': ['UNIONCONTRIB', 'PRODUCT', 'WORKLIST', 'COW', 'FORWARD', 'UNIONTRANSL', 'ACCRET', 'SCRATCHRESET', 'NULLPARAM', 'TENTATIVE', 'REINDEXALL', 'ALPHASRC', 'DRAIN', 'STATICSTATE', 'SHAREID', 'QUEUEENDS'],
     'C03': ['SIZEEQ', 'WORKLIST', 'DRAIN', 'COW', 'FORWARD', 'COUNTGUARD', 'USEMOVE', 'ACCRET', 'KEPTRULES', 'COLLECTALL', 'ALPHASRC', 'COPYALL', 'QUEUEENDS', 'STATICSTATE'],
-    'C04': ['KIND', 'SIMMAP', 'COPYALL', 'LOOPBOUND', 'TUPLEPOS', 'FORWARD', 'KEYFIELDS', 'CLIOPT', 'INSETLABEL', 'PREPASS', 'USEDSTATES', 'REFSTABLE', 'STATICSTATE', 'TRANSLALL', 'SELFREF'],
+    'C04': ['KIND', 'SIMMAP', 'COPYALL', 'LOOPBOUND', 'TUPLEPOS', 'FORWARD', 'KEYFIELDS', 'CLIOPT', 'INSETLABEL', 'PREPASS', 'USEDSTATES', 'REFSTABLE', 'STATICSTATE', 'TRANSLALL', 'SELFREF', 'DRAIN'],
     'C05': ['SIMMAP', 'KIND', 'LOOPBOUND', 'DRAIN', 'WORKLIST', 'SIZEEQ', 'COW', 'FORWARD', 'ACCRET', 'INSETLABEL', 'COPYALL', 'USEDSTATES', 'ALPHASRC', 'QUEUEENDS', 'STATICSTATE', 'TRANSLALL', 'SELFREF'],
     'C06': ['COMPL', 'ACDUAL', 'ALPHASRC', 'ACCRET', 'COLLECTALL', 'WORKLIST', 'SYMIDX', 'SIZEDINDEX', 'FALLOFF', 'COUNTGUARD', 'KEPTRULES', 'DRAIN', 'QUEUEENDS', 'STATICSTATE'],
     'C07': ['DISPATCH', 'ACDUAL', 'FINCHK', 'MERGE', 'PARALLEL', 'COLLECTALL', 'CACHELIFE', 'SIBLING', 'FORWARD', 'QUEUEENDS', 'CLIOPT', 'SCRATCHRESET', 'GENPRE', 'DRAIN', 'FLAGRESET', 'TUPLEPOS', 'CANON', 'UNIONCONTRIB', 'CHECKEDRET', 'STATICSTATE', 'SAMELEN'],
@@ -22,13 +22,14 @@ PROPS = {
     'C16': ['INSETLABEL', 'COPYALL', 'STALESIZE', 'QUEUEENDS', 'DRAIN', 'COLLECTALL', 'LOOPBOUND', 'INIT', 'ITERINVAL', 'STATICSTATE', 'SELFREF'],
     'C17': ['CANON', 'TEXT', 'BACKTRACK', 'COPYALL', 'REFCNT', 'STATICSTATE'],
     'C18': ['REFCNT', 'CANON', 'COPYALL', 'STATICSTATE'],
-    'C19': ['KIND', 'SIMMAP', 'DISPATCH', 'SIBLING', 'ACDUAL', 'ORDTOTAL', 'FRAMERESET', 'HASHEQ', 'MEMO', 'KEYFIELDS', 'ADDRKEY', 'QUEUEENDS', 'CLIOPT', 'FLAGRESET', 'INSETLABEL', 'PREPASS', 'CONGRMATCH', 'USEDSTATES', 'REFSTABLE', 'TUPLEPOS', 'STATICSTATE', 'TRANSLALL', 'SELFREF', 'UNIONCONTRIB'],
+    'C19': ['KIND', 'SIMMAP', 'DISPATCH', 'SIBLING', 'ACDUAL', 'ORDTOTAL', 'FRAMERESET', 'HASHEQ', 'MEMO', 'KEYFIELDS', 'ADDRKEY', 'QUEUEENDS', 'CLIOPT', 'FLAGRESET', 'INSETLABEL', 'PREPASS', 'CONGRMATCH', 'USEDSTATES', 'REFSTABLE', 'TUPLEPOS', 'STATICSTATE', 'TRANSLALL', 'SELFREF', 'UNIONCONTRIB', 'DRAIN'],
     'C20': ['INIT', 'FALLOFF', 'PAIRFIELD', 'COPYALL', 'FRAMERESET', 'CACHELIFE', 'LOOPBOUND', 'ERASER', 'STALESIZE', 'ITER', 'NONEMPTY', 'USEMOVE', 'INSETLABEL', 'GENPRE', 'REFCNT', 'NULLPARAM', 'ITERINVAL', 'REFSTABLE', 'SIZEDINDEX', 'CANON', 'CHECKEDRET', 'STATICSTATE', 'SELFREF'],
 }
 
 # (property, rule) -> regex on the repo-relative file: only sites in matching files are attributed to that
 # property (rule health — floors, anchors — is always judged on all sites)
 FILTER = {
+    ('C04', 'DRAIN'): r'explicit_lts|explicit_tree_transl|explicit_tree_sim', ('C19', 'DRAIN'): r'explicit_lts|explicit_tree_transl|explicit_tree_sim',
     ('C19', 'UNIONCONTRIB'): r'bdd_',
     ('C09', 'TRANSLALL'): r'explicit_finite', ('C04', 'TRANSLALL'): r'explicit_tree', ('C05', 'TRANSLALL'): r'explicit_tree', ('C19', 'TRANSLALL'): r'explicit_tree', ('C07', 'SAMELEN'): r'bdd_', ('C08', 'SAMELEN'): r'bdd_',
     ('C02', 'QUEUEENDS'): r'explicit_tree', ('C03', 'QUEUEENDS'): r'explicit_tree', ('C08', 'QUEUEENDS'): r'bdd_', ('C10', 'QUEUEENDS'): r'explicit_finite', ('C15', 'QUEUEENDS'): r'explicit_tree_candidate|explicit_tree_unreach', ('C05', 'QUEUEENDS'): r'explicit_tree_unreach', ('C06', 'QUEUEENDS'): r'comp_down|explicit_tree_(useless|unreach)',
